@@ -35,6 +35,7 @@ type c14Case struct {
 	Twice   bool      `json:"twice"` // run a second, clean transaction afterwards (back-to-back)
 	BulkBad int       `json:"bulk_bad,omitempty"`
 	Bulk    [][]string `json:"bulk,omitempty"` // when set: a BulkInsert case (rows of id, v); BulkBad: 1-based index of the bad row, 0 none
+	BulkN    int      `json:"bulk_n,omitempty"`    // when set: that many generated rows (id 20+i, "b<i>") instead of Bulk
 	BulkKind string   `json:"bulk_kind,omitempty"` // dup | short
 }
 
@@ -44,10 +45,19 @@ func genC14(rt *rapid.T) c14Case {
 	var c c14Case
 	if lang.Spread(rt, "bulk", 6) == 0 {
 		n := 1 + lang.Spread(rt, "nrows", 5)
-		for i := 0; i < n; i++ {
-			c.Bulk = append(c.Bulk, []string{fmt.Sprint(20 + i), fmt.Sprintf("b%d", i)})
+		if lang.Spread(rt, "bigbulk", 4) == 0 {
+			// sizes at which an implementation may start batching (bound-parameter limits, packet sizes)
+			n = []int{40, 333, 334, 500, 600, 1500, 4000}[lang.Spread(rt, "nbig", 7)]
+			c.BulkN = n
+		} else {
+			for i := 0; i < n; i++ {
+				c.Bulk = append(c.Bulk, []string{fmt.Sprint(20 + i), fmt.Sprintf("b%d", i)})
+			}
 		}
 		c.BulkBad = lang.Spread(rt, "bad", n+1)
+		if c.BulkN > 0 && lang.Spread(rt, "badlate", 2) == 0 {
+			c.BulkBad = n - lang.Spread(rt, "fromend", 3)
+		}
 		c.BulkKind = []string{"dup", "short", "null"}[lang.Spread(rt, "bk", 3)]
 		return c
 	}
@@ -165,7 +175,7 @@ func runC14Inner(c c14Case) evid.Outcome {
 			return evid.Outcome{Skip: "setup: " + err.Error()}
 		}
 	}
-	if c.Bulk != nil {
+	if c.Bulk != nil || c.BulkN > 0 {
 		return runC14Bulk(c, s)
 	}
 	pre, _ := c14Read(s.db)
@@ -289,8 +299,12 @@ func runC14Inner(c c14Case) evid.Outcome {
 
 func runC14Bulk(c c14Case, s *SQLiteDB) evid.Outcome {
 	ctx := context.Background()
-	rows := make([][]interface{}, len(c.Bulk))
-	for i, r := range c.Bulk {
+	bulk := c.Bulk
+	for i := 0; i < c.BulkN; i++ {
+		bulk = append(bulk, []string{fmt.Sprint(20 + i), fmt.Sprintf("b%d", i)})
+	}
+	rows := make([][]interface{}, len(bulk))
+	for i, r := range bulk {
 		rows[i] = []interface{}{r[0], r[1]}
 		if c.BulkBad == i+1 {
 			switch c.BulkKind {
